@@ -44,6 +44,24 @@ theorem body_skeletons :
 
 theorem chunk_size_pos : 0 < Gen.Consts.FILESENDER_CHUNK_SIZE := by decide
 
+/-- `_write_directory` unpacks member by member through `_extract_file`, whose guard raises and whose
+    `zf.extract` / `os.chmod` are **not** inside any `try`: an error creating a member leaves the
+    function (model: `Zip.unzip = none` ⇒ the receiver fails, no ack), it is not turned into a warning -/
+theorem extraction_errors_propagate :
+    Gen.Skel.skeleton "Receiver._extract_file" =
+      [("-", "os.path.abspath"), ("if", "ValueError"), ("-", "zf.extract"), ("-", "os.chmod")] ∧
+    Gen.Skel.skeleton "Receiver._write_directory" =
+      [("-", "self._msg"), ("-", "zipfile.ZipFile"), ("-", "zf.infolist"), ("for", "self._extract_file"),
+       ("-", "self._msg"), ("-", "f.close")] := by decide
+
+/-- the ack check at the end of `_send_file`: read the ack, close, one guarded `TransferError` for
+    `ack != "ok"`, and a second one nested under *two* conditions — `"sha256" in ack`, then `!=` — so a
+    present-but-different value of any kind is refused (model: `ShaField.junk` / `.digest d ≠` ⇒ failure) -/
+theorem send_file_ack_check_shape :
+    (Gen.Skel.skeleton "Sender._send_file").drop 11 =
+      [("-", "record_pipe.receive_record"), ("-", "record_pipe.close"), ("if", "t.detail"), ("if", "TransferError"),
+       ("if/if", "t.detail"), ("if/if", "TransferError"), ("-", "t.detail")] := by decide
+
 /-- the offer / answer / ack codec (`util.dict_to_bytes`, `util.bytes_to_dict`) is plain
     `json.dumps(d).encode("utf-8")` / `json.loads(b.decode("utf-8"))`: no `to_bytes` / `unicodedata`
     in either (which would NFC-normalise the text message, the file name and the directory name on
@@ -220,7 +238,7 @@ theorem cut_no_success_no_final {τ : Type} (H : Hash) (Z : Zip τ) (xfersize : 
     · exact inv_pending hinv hp
     · have hd := inv_done hinv (by rw [hf]; simp)
       obtain ⟨b1, b2, b3, _⟩ := hd.bad _ hf
-      exact ⟨b1, b2, b3⟩
+      exact ⟨b1 (by simp), b2, b3⟩
   refine ⟨?_, hfacts.1, hfacts.2.2, hfacts.2.1, ?_⟩
   · rcases hres with hp | hf
     · show (runRx H Z xfersize dirMode stale evs).result ≠ .success
